@@ -311,6 +311,28 @@ impl Meta {
             );
             return;
         }
+        // a direct list whose last statement is a conditional END (taken or not) ends like the one-line program
+        {
+            let x = rng.range(0, 1);
+            let dl = match rng.usize(3) {
+                0 => format!("X={}:PRINT \"A\":IF X THEN END", x),
+                1 => format!("X={}:IF X THEN PRINT \"T\" ELSE END", x),
+                _ => format!("X={}:PRINT \"A\";:IF X THEN PRINT \"B\":END", x),
+            };
+            let (td, _) = cmd(&mut full, &dl);
+            let mut one = typed(&[format!("10 {}", dl)]);
+            let (tl, _) = cmd(&mut one, "RUN");
+            ctx.count("direct_lists_ending_in_a_conditional_END");
+            if td != tl {
+                ctx.violation(
+                    "direct-vs-line",
+                    "layout:direct-conditional-end",
+                    &format!("{:?} gives {:?} in direct mode and {:?} as line 10", dl, td, tl),
+                    &format!("{}\n{}", base.join("\n"), dl),
+                );
+                return;
+            }
+        }
         // lines that compile to nothing do nothing in direct mode either, with and without a program
         let nothing = *rng.pick(&["REM x", "'x", ":", ": :REM X", "::", "REM", " :' GOTO 1"]);
         for (which, sess) in [("no program", &mut empty), ("the program loaded", &mut full)] {
@@ -894,7 +916,10 @@ impl Meta {
             let before = s.listing_text();
             let mut non_editing = false;
             let c: String = match rng.usize(15) {
-                12 => "NEW".to_string(),
+                12 if rng.chance(1, 3) => "NEW".to_string(),
+                // a program line that edits the program when it runs, and a run in the middle of the history
+                12 => format!("{} DELETE {}", rng.pick(&nums1), rng.pick(&nums1)),
+                11 if rng.coin() => "RUN".to_string(),
                 13 => "SAVE \"F\"".to_string(),
                 14 => rng.pick(&["LOAD \"F\"", "LOAD \"F\"", "LOAD \"NOFILE\""]).to_string(),
                 0 | 1 => rng.pick(&l2).clone(),                                   // insert / replace from another program
@@ -921,6 +946,10 @@ impl Meta {
                 }
             };
             script.push(c.clone());
+            if c == "RUN" {
+                // frames, CONT point and functions left by this run belong to the program as it is now
+                mutated = false;
+            }
             let (_, st) = cmd(&mut s, &c);
             if st == Stop::Budget {
                 ctx.count("discarded_budget");
